@@ -26,6 +26,7 @@ import Proofs.RoundTrip
 import Proofs.RoundTripWalk
 import Proofs.RoundTripDoc
 import Proofs.RoundTripSer
+import Proofs.RoundTripMarks
 namespace PM.C19
 open PM.Dom
 
@@ -864,20 +865,20 @@ end Examples
       theorem roundtrip (R : RoundTrip.RParser) (D : RoundTrip.ToDom) (doc : Node)
           (h : RoundTrip.rtOk R D doc = true) : RoundTrip.roundTrip R D doc = .ok doc
 
-  Proved (`…_partial`): the steps of the induction for mark-free content —
-  * a whitespace-normal text (`textOk`) met by the walk inside an open context whose automaton accepts text is inserted
-    *unchanged* and the walk's invariant is kept (`roundtrip_text_partial`);
-  * a node the open context's automaton accepts is placed directly below it — no wrapper is opened, no filler
-    inserted, pending contexts above are closed first — by `insert_node` (`roundtrip_insert_partial`) and `enter`
-    (`roundtrip_enter_partial`).
-  * an element read back as a non-leaf node starts with `enter` directly below the open context and leaves the walk's
-    invariant one level deeper (`roundtrip_open_partial`); its close finds the node's context by identity and steps out of
-    it (`roundtrip_close_partial`); the finish of a context whose content is complete (`validEnd`), normalised and does not
-    end in strippable white space (`lastOk`) gives exactly the node (`roundtrip_finish_partial`).
-  Missing for the full statement: the induction over the document that chains these steps (with `match_tag` picking the
-  first candidate, `firstRule`), leaves, the transparent inner element of `["pre", ["code", 0]]`, the mark bookkeeping
-  (pending / active marks against the nesting order of `serialize_fragment`), and
-  `toDomList (serializeDoc …)` = the canonical DOM of `doc`. -/
+  Proved: **`roundtrip_markfree_partial`** — the full statement for documents without marks (`noMarks`): text, leaves,
+  nested blocks, lists, code blocks, attributes; in two halves, `roundtrip_export_canonical_partial` (the serializer's
+  output converts to the canonical DOM of the document) and `roundtrip_import_canonical_partial` (the walk over the
+  canonical DOM rebuilds the document), the latter by induction over the document from the steps
+  `roundtrip_{text,insert,enter,open,close,finish}_partial` below (Proofs/RoundTripDoc.lean: `walk_node` / `walk_kids`,
+  with `match_tag` = the first candidate, leaves, the transparent inner element of `["pre", ["code", 0]]` with and
+  without a mark rule for it).
+  For marks the steps of the bookkeeping are proved: an emitted mark element opens — its mark is appended to the pending
+  marks of the open context (`roundtrip_marks_open_partial`); a node inserted inside gets exactly the marks of the
+  enclosing mark elements, which become active in order (`roundtrip_marks_insert_partial`); the element closes — its mark
+  is the last active one and is taken off (`roundtrip_marks_close_partial`).  The invariant is `MarkSt`: active marks ++
+  pending marks of the open context = the marks of the enclosing emitted mark elements, outermost first.
+  Missing for the full statement: the forest of mark elements `serialize_fragment` emits for a textblock (keep-open
+  prefix of marks) as a structure, and the induction over that forest chaining the three mark steps. -/
 
 open PM PM.RoundTrip PM.FromDom in
 /-- **text survives** (stage i of the round trip): inside an open context `cx` (type `t`, automaton state `q`, nothing
@@ -984,6 +985,42 @@ theorem roundtrip_import_canonical_partial (R : RParser) (D : ToDom) (doc : Node
     (hnm : noMarks doc = true) (rootTag : String) : DomWalk.parse R.P rootTag (domOfList R D doc.kids) = .ok doc :=
   parse_canonical R D doc h hnm rootTag
 
+open PM PM.RoundTrip PM.FromDom in
+/-- **an emitted mark element opens**: with `pa` active and `pp` pending (the marks of the enclosing mark elements), a mark
+    that can follow them (higher rank, no exclusion) is appended to the pending marks; nothing is stashed -/
+theorem roundtrip_marks_open_partial (S : Schema) (st : PState) (base : List NodeCtx) (cx : NodeCtx) (t : TypeId) (q : Nat)
+    (pa pp : List TMark) (mk : TMark)
+    (hn : st.nodes = base ++ [cx]) (ho : st.open_ = base.length) (hs : MarkSt cx t q pa pp)
+    (hf : follows S ((pa ++ pp).map (·.2)) mk.2) :
+    st.addPendingMark S mk = .ok { st with nodes := base ++ [{ cx with pending := pp ++ [mk] }] } ∧
+    MarkSt { cx with pending := pp ++ [mk] } t q pa (pp ++ [mk]) :=
+  addPendingMark_marks S st base cx t q pa pp mk hn ho hs hf
+
+open PM PM.RoundTrip PM.FromDom in
+/-- **a node inserted inside emitted mark elements gets exactly their marks** (in particular the space between two
+    differently marked words keeps the marks it has): the pending marks become active in order, and the node is
+    appended with the active set = the marks of all enclosing mark elements, outermost first -/
+theorem roundtrip_marks_insert_partial (S : Schema) (wsPre : TypeId → Bool) (st : PState) (base : List NodeCtx) (cx : NodeCtx)
+    (t : TypeId) (q q' : Nat) (pa pp : List TMark) (node : Node)
+    (hn : st.nodes = base ++ [cx]) (ho : st.open_ = base.length) (hs : MarkSt cx t q pa pp)
+    (hch : Chain S ((pa ++ pp).map (·.2))) (hal : ∀ m ∈ pp, (S.nodeType t).allowsMarkType m.2.ty = true)
+    (hm : (S.dfa t).matchType q (S.tyOf node) = some q') (hmk : node.marks = []) :
+    ∃ aT, st.insertNode S wsPre node =
+      .ok ({ st with nodes := base ++ [{ cx with active := (pa ++ pp).map (·.2), pending := [], activeT := aT, mtch := some q',
+                                                  content := cx.content ++ [node.withMarks ((pa ++ pp).map (·.2))] }] }, true) :=
+  insertNode_marks S wsPre st base cx t q q' pa pp node hn ho hs hch hal hm hmk
+
+open PM PM.RoundTrip PM.FromDom in
+/-- **an emitted mark element closes** after a node was inserted in it: its mark is the last active one and is taken off -/
+theorem roundtrip_marks_close_partial (S : Schema) (st : PState) (base : List NodeCtx) (cx : NodeCtx) (t : TypeId) (q : Nat)
+    (pa : List TMark) (mk : TMark)
+    (hn : st.nodes = base ++ [cx]) (ho : st.open_ = base.length) (hs : MarkSt cx t q (pa ++ [mk]) [])
+    (hf : follows S (pa.map (·.2)) mk.2) :
+    ∃ aT, st.removePendingMark S mk (some base.length) =
+        .ok { st with nodes := base ++ [{ cx with active := pa.map (·.2), activeT := aT }] } ∧
+      MarkSt { cx with active := pa.map (·.2), activeT := aT } t q pa [] :=
+  removePendingMark_active S st base cx t q pa mk hn ho hs hf
+
 namespace RoundTripExamples
 open PM.RoundTrip PM.FromDom
 -- labelled tests of the whitespace rule (`textOk`): "foo", "a b" are normal; a leading space at the start of a textblock,
@@ -1055,6 +1092,12 @@ example : rtOk RB DB docCode = true := by decide
 example : roundTrip RB DB docCode = .ok docCode := roundtrip_markfree_partial RB DB docCode (by decide) (by decide)
 -- the serialised HTML of that document
 example : String.ofList (Dom.renderAll (serializeDoc SB DB docCode)) = "<p>a b<br>c</p><pre><code>x\n  y\n</code></pre>" := by decide
+-- the hypotheses of the mark steps are satisfiable: in this schema `strong` can follow `em`, and [em, strong] is a chain
+example : follows SB [⟨0, []⟩] ⟨1, []⟩ := by
+  intro o ho
+  simp only [List.mem_singleton] at ho
+  subst ho
+  exact ⟨by decide, by decide, by decide⟩
 end RoundTripExamples
 
 end PM.C19
